@@ -775,6 +775,8 @@ func streamLimit(c *Ctx) {
 	}
 	unaryLengthProbes(c)
 	unaryEncodedBulkProbes(c)
+	declaredSmallLengthProbe(c)
+	afterHugeOversizeProbe(c)
 	compressedTerminatorProbes(c)
 	readLimitOptionOrderProbes(c, "limit-within-rejected")
 	highRatioProbes(c)
@@ -905,6 +907,91 @@ func unaryEncodedBulkProbes(c *Ctx) {
 					c.Fail("limit-encoded-bulk-buffered", desc, fmt.Sprintf("allocated %d bytes", alloc), "receiver buffered far more than its read limit from the wire because the body names a Content-Encoding")
 				}
 			}
+		}
+	}
+}
+
+// declaredSmallLengthProbe (C09, oracle only): "a peer cannot make the receiver buffer
+// substantially more than N bytes by declaring a false length" - also a length that is too
+// *small*: a unary request that declares 16 bytes and carries 32 MiB (no HTTP server between the
+// handler and the bytes here; a middleware that swaps the body does the same) is rejected without
+// being buffered (round 11, C09-mo).
+func declaredSmallLengthProbe(c *Ctx) {
+	const wire = 32 << 20
+	for _, n := range []int{1024, 65536} {
+		desc := fmt.Sprintf("unary Connect handler, max=%d, request declares Content-Length 16 and carries %d bytes", n, wire)
+		var alloc uint64
+		got := safely(func() string {
+			bulk := bytes.Repeat([]byte{7}, wire)
+			h := connect.NewUnaryHandler("/s/m", func(ctx context.Context, r *connect.Request[[]byte]) (*connect.Response[[]byte], error) {
+				return connect.NewResponse(&[]byte{1}), nil
+			}, connect.WithCodec(rawCodec{"raw"}), connect.WithReadMaxBytes(n))
+			req := httptest.NewRequest(http.MethodPost, "/s/m", &scriptReader{chunks: [][]byte{bulk}, tail: io.EOF})
+			req.ProtoMajor, req.ProtoMinor, req.Proto = 2, 0, "HTTP/2.0"
+			req.Header.Set("Content-Type", "application/raw")
+			req.Header.Set("Content-Length", "16")
+			req.ContentLength = 16
+			rec := httptest.NewRecorder()
+			runtime.GC()
+			var before, after runtime.MemStats
+			runtime.ReadMemStats(&before)
+			h.ServeHTTP(rec, req)
+			runtime.ReadMemStats(&after)
+			alloc = after.TotalAlloc - before.TotalAlloc
+			return fmt.Sprintf("status=%d", rec.Code)
+		})
+		c.Count("declared-small-length-probe")
+		if got != "status=400" {
+			c.Fail("limit-within-rejected", desc, got, "an over-limit unary body must be rejected as invalid_argument")
+		}
+		if alloc > uint64(8*n+(2<<20)) {
+			c.Fail("limit-declared-length-buffered", desc, fmt.Sprintf("allocated %d bytes", alloc), "the receiver buffered far more than its read limit because the request declared a small length")
+		}
+	}
+}
+
+// afterHugeOversizeProbe (C09, oracle only): "at every position in a stream": a message over the
+// limit is skipped whole, however large it is, so that the messages behind it are framed
+// correctly: [1 byte][6 MiB][1 byte] under a 1 KiB limit gives message, size error, message, end
+// to a handler that goes on receiving (round 11, C09-mp: the skip capped at 4 MiB).
+func afterHugeOversizeProbe(c *Ctx) {
+	const big = 6 << 20
+	for _, proto := range []string{"connect", "grpc", "grpcweb"} {
+		desc := fmt.Sprintf("%s bidi handler, read limit 1024, request [1 byte][%d bytes][1 byte], Receive continues after the size error", proto, big)
+		c.Count("after-huge-oversize-probe")
+		got := safely(func() string {
+			payload := make([]byte, big)
+			// the tail of the big message looks like envelopes, so that a reader left inside it
+			// delivers something
+			for i := 4<<20 + 1000; i+6 <= big; i += 6 {
+				copy(payload[i:], []byte{0, 0, 0, 0, 1, 0x55})
+			}
+			flat := append(frame(0, []byte{1}), frame(0, payload)...)
+			flat = append(flat, frame(0, []byte{7})...)
+			var seen []string
+			h := connect.NewBidiStreamHandler("/s/m", func(ctx context.Context, s *connect.BidiStream[[]byte, []byte]) error {
+				for i := 0; i < 8; i++ {
+					m, err := s.Receive()
+					switch {
+					case err == nil:
+						seen = append(seen, "m:"+hx(*m))
+					case errors.Is(err, io.EOF):
+						seen = append(seen, "eof")
+						return nil
+					default:
+						seen = append(seen, "e:"+connect.CodeOf(err).String())
+					}
+				}
+				return nil
+			}, connect.WithCodec(rawCodec{"raw"}), connect.WithReadMaxBytes(1024))
+			req := httptest.NewRequest(http.MethodPost, "/s/m", &scriptReader{chunks: segment(flat, []int{6, 6 + 5 + 3<<20}), tail: io.EOF})
+			req.ProtoMajor, req.ProtoMinor, req.Proto = 2, 0, "HTTP/2.0"
+			req.Header.Set("Content-Type", map[string]string{"connect": "application/connect+raw", "grpc": "application/grpc+raw", "grpcweb": "application/grpc-web+raw"}[proto])
+			h.ServeHTTP(httptest.NewRecorder(), req)
+			return strings.Join(seen, " ")
+		})
+		if got != "m:01 e:invalid_argument m:07 eof" {
+			c.Fail("limit-after-oversize-misframed", desc, got[:min(len(got), 200)], "the handler must see: message, size error, message, end")
 		}
 	}
 }
